@@ -45,6 +45,7 @@ make -s -C "$V" -j"$JOBS" VDIR="$V" VARIANT="$variant" HV="$( [ "$variant" = thr
 HV=$variant; [ "$variant" = thrassert ] && HV=thr
 WRAPS="malloc,calloc,realloc,free,strdup,vasprintf,read,write,open,close,uselocale,newlocale,duplocale,freelocale,setlocale,arc4random"
 OUT=$B/jsim-$variant
+[ "$HV" = thr ] && WRAPS="$WRAPS,pthread_mutex_lock,pthread_mutex_unlock,pthread_mutex_trylock"
 $CXX -no-pie $LDX -o "$OUT.tmp" "$B/h-$HV"/*.o "$OD"/*.o -Wl,--wrap=${WRAPS//,/ -Wl,--wrap=} -lm -ldl -lpthread
 nm -n --defined-only "$OUT.tmp" | awk '$2 ~ /^[TtWw]$/ {print $1, $3}' >"$OUT.sym.tmp"
 mv "$OUT.sym.tmp" "$OUT.sym"
